@@ -106,6 +106,9 @@ PROPS["C04"] = {
     "lean_module": "RaftVerif.Props.C04",
     "theorems": [
         T("RP.log_matching", "cluster model: equal (index, term) in two logs => equal logs through that index, every execution", "partial"),
+        T("SV.ae_success_sound", "the stepped model's AppendEntries, every failure and crash ordinal: a success answer implies term >= own, the previous-entry check passed, and every planned write (truncation, staging, storing) was performed before the answer"),
+        T("SV.aePrevOk_true", "what a passed previous-entry check means: PrevLogEntry = 0, or the cached last entry / the snapshot boundary with the announced term, or inside the snapshot, or stored with the announced term"),
+        T("SV.aePlan_steps_refuse", "whatever write of AppendEntries fails, the answer is not success"),
         T("SV.ae_stale_term_inert", "the stepped model's AppendEntries with an older term: no write, no state change, answer false with the server's term"),
     ],
     "engines": [handlers("C04"), universe("C04")],
